@@ -86,6 +86,7 @@ impl Process {
     pub fn set_data(&self, vars: &Vars) {
         if let Some(root) = self.root() {
             root.set_data(vars);
+            root.persist();
         }
     }
 
